@@ -91,14 +91,14 @@ Lines3(K) == {Primitive(PlueckerOfPoints(a, b)) : a \in Classes(4, K), b \in Cla
 \* Action of a matrix M (n+1 x n+1, invertible, integer) on each kind.
 \* Points move by M, hyperplanes by the cofactor matrix (M^-T up to scale).
 ActPoint(M, p) == MatVec(M, p)
-ActHyper(M, h) == MatVec(Cof(M), h)
+ActHyper(M, h) == MatVec(MatPrimitive(Cof(M)), h)
 ActLine3(M, l) == LET a == PMat(l) IN     \* rows of PMat span the line's points: map two independent ones
   LET rows == [i \in 1..4 |-> MatVec(M, a[i])]
       c == [ij \in {<<1,2>>,<<1,3>>,<<1,4>>,<<2,3>>,<<2,4>>,<<3,4>>} |-> PlueckerOfPoints(rows[ij[1]], rows[ij[2]])]
   IN FirstNonZeroVec(<<c[<<1,2>>], c[<<1,3>>], c[<<1,4>>], c[<<2,3>>], c[<<2,4>>], c[<<3,4>>]>>, 1)
 \* quadric  x^T Q x = 0  ->  y^T (M^-T Q M^-1) y = 0 ; with adjugates to stay in the integers
-ActQuadric(M, Q) == LET A == Adj(M) IN MatMul(MatMul(Transpose(A), Q), A)
-ActDualQuadric(M, Q) == MatMul(MatMul(M, Q), Transpose(M))
+ActQuadric(M, Q) == LET A == MatPrimitive(Adj(M)) B == MatMul(Transpose(A), Q) IN MatMul(B, A)
+ActDualQuadric(M, Q) == LET B == MatMul(M, Q) IN MatMul(B, Transpose(M))
 
 Act(M, o) ==
   CASE o.k = "point" -> Obj("point", ActPoint(M, o.v))
